@@ -2,7 +2,7 @@
 # runs inside a vp snapshot: build against the /repo snapshot, then every thorough tier
 sed -i "s#\"/repo/#\"$VP_RUN_REPO/#g" harness/Cargo.toml harness/*/Cargo.toml
 grep -c "$VP_RUN_REPO" harness/Cargo.toml
-for p in C19 C18 C09 C10 C11 C12 C13 C14 C15 C16 C17 C20 C03 C08 C04 C02 C07 C05 C01 C06; do
+for p in C08 C04 C03 C05 C06 C01 C02 C07 C19 C18 C09 C10 C11 C12 C13 C14 C15 C16 C17 C20; do
   s=$(date +%s)
   out=$(bin/check $p --tier thorough 2>&1); code=$?
   echo "=== $p exit=$code $(( $(date +%s) - s ))s"
